@@ -91,6 +91,60 @@ Definition carry_all (p : plat) : plat := p.
 Definition carry_cache (p : plat) : plat :=
   {| assoc := []; defs := []; memo := memo p; once := once p; events := []; dirs := [] |}.
 
+(* A third variant (a seeded regression had this shape): a "prefix header" cache.  After the
+   forced includes of a command the Platform is saved with a SHALLOW copy under the key
+   (platform, directory of the source file, -I list, -D list, -include list); a later command of
+   the same platform with the same key skips configuration and forced includes and starts from
+   a shallow copy of the snapshot.  The copies share the macro table, the once-list and the
+   include memo with the command that created them, so the snapshot is in fact the END state
+   of the previous same-key command, and it keeps accumulating. *)
+Definition pkey := (path * list path * list (string * mval) * list path)%type.
+Definition pkey_of (e : entry) : pkey := (dirname (e_file e), e_dirs e, e_defs e, e_incs e).
+Fixpoint list_eqb {A} (eqb : A -> A -> bool) (a b : list A) : bool :=
+  match a, b with
+  | [], [] => true
+  | x :: a', y :: b' => eqb x y && list_eqb eqb a' b'
+  | _, _ => false
+  end.
+Definition pkey_eqb (a b : pkey) : bool :=
+  let '(d1, i1, m1, f1) := a in let '(d2, i2, m2, f2) := b in
+  path_eqb d1 d2 && list_eqb path_eqb i1 i2 &&
+  list_eqb (fun x y => String.eqb (fst x) (fst y) && mval_eqb (snd x) (snd y)) m1 m2 &&
+  list_eqb path_eqb f1 f2.
+Fixpoint store_get (k : pkey) (st : list (pkey * plat)) : option plat :=
+  match st with [] => None | (k', p) :: r => if pkey_eqb k k' then Some p else store_get k r end.
+Definition store_set (k : pkey) (p : plat) (st : list (pkey * plat)) : list (pkey * plat) := (k, p) :: st.
+
+Section FindPrefix.
+Variable fs : fsys.
+Variable fuel : nat.
+Fixpoint entries_P (n : pname) (es : list entry) (st : list (pkey * plat)) (am : amap) : res amap :=
+  match es with
+  | [] => Ok am
+  | e :: r =>
+      let k := pkey_of e in
+      match store_get k st with
+      | Some p0 =>
+          match run_file_M fs fuel (e_file e) p0 with
+          | Ok p' => entries_P n r (store_set k p' st) (merge n (rev (assoc p')) am)
+          | Err x => Err x
+          end
+      | None =>
+          match run_entry fs fuel e new_platform with
+          | Ok p' => entries_P n r (match e_incs e with [] => st | _ => store_set k p' st end)
+                               (merge n (rev (assoc p')) am)
+          | Err x => Err x
+          end
+      end
+  end.
+Fixpoint find_P (cfg : config) (am : amap) : res amap :=
+  match cfg with
+  | [] => Ok am
+  | (n, es) :: r => match entries_P n es [] am with Ok am' => find_P r am' | Err x => Err x end
+  end.
+End FindPrefix.
+Definition find_prefix (fs : fsys) (fuel : nat) (cfg : config) : res amap := find_P fs fuel cfg [].
+
 (* finder.find as written: WHERE the Platform is created is read from the source
    (Gen/C08_tables.v, regenerated by tools/gen/c08_tables.py on every run), so that
    hoisting it moves the model with the code - and breaks the theorems of Props/C08.v *)
